@@ -90,7 +90,7 @@ F('source_point__update', r'constexpr\s+void\s+update\(Iterator start,\s*Iterato
 F('utils__find_char', r'constexpr\s+size_t\s+find_char\s*\(\s*char c\s*,\s*const char\*\s*str\s*\)', 'size_t utils__find_char(char c, const char* str)', scope=None, between_ok=r'\s*')
 
 F('write_rule_diag_str', r'constexpr\s+void\s+write_rule_diag_str\(Stream& s,\s*size16_t rule_info_idx\)\s*const', 'void write_rule_diag_str(size16_t rule_info_idx)',
-  rules=RI2 + [S(r'if constexpr \(max_rule_element_count > 1\)', 'if (max_rule_element_count > 1)', name='R17')], between_ok=r'\s*')
+  rules=RI2 + [S(r'if constexpr \((max_rule_element_count[^)]*)\)', r'if (\1)', name='R17')], between_ok=r'\s*')
 F('get_symbol_name', r'constexpr\s+const char\*\s+get_symbol_name\(const symbol& s\)\s*const', 'const char* get_symbol_name(struct symbol s)', between_ok=r'\s*')
 
 F('shift_recovery_token', TPL('shift_recovery_token') + r'ParseState& ps,\s*size16_t new_cursor_value\)\s*const', 'void shift_recovery_token(size16_t new_cursor_value)',
